@@ -3,7 +3,8 @@ from contracts.index import entry_extend
 entry_extend(
     "C09", modules=["contracts.c09_ext"],
     E1=[], LEMMAS=False,
-    PROVIDERS=["contracts.c09_ext.provider_dispatch", "contracts.c09_ext.provider_threading"],
+    PROVIDERS=["contracts.c09_ext.provider_dispatch", "contracts.c09_ext.provider_threading",
+               "contracts.c09_ext.provider_cyclic"],
     TRUSTED=[
         "provider_dispatch executes the REAL ast of _TN1D_COMPRESS_METHODS and tensor_network_1d_compress (compiled unchanged, "
         "annotations unevaluated) in a namespace of recording stubs: the method functions themselves are NOT executed there; "
@@ -14,8 +15,19 @@ entry_extend(
         "callees (Tensor.split, compress_between, TN_matching, ...) do with the options they receive is outside it (C05 / the "
         "C09 sweep contracts); declared special cases are the tables STAGED, GUESS_STAGE, GUESS_SPEC_CARRIER, "
         "CONDITIONAL_CARRIER in contracts/c09_ext.py",
+        "provider_cyclic runs the E1 engine (vf.pyvc.verify on the real ast) with contracts that are NOT in the engine's registry "
+        "(one contract per target there: the open-boundary ones of contracts/c10_sweeps.py); leaf [TensorNetwork1D.site_tag takes "
+        "integer sites modulo L; checked natively: p[-1] is site L-1, p[L] is site 0]: on a periodic chain left_compress_site(i) "
+        "compresses the bond between sites i and i+1 mod L (-1 <= i <= L-2), right_compress_site(i) the one between i-1 and i mod L "
+        "(1 <= i <= L), each with the options it receives; leaf: left_/right_canonize compress nothing; compress uses the PROVED post-condition "
+        "of the periodic sweeps (stated from a zero counter) relative to the current counter -- the leaf effect is additive; SKOLEM BOND: every "
+        "obligation is stated for one arbitrary bond k of the ring (k = L-1 is the closing bond)",
     ],
     ASSUMPTIONS=[
+        "periodic sweeps: cyclic=True, L >= 2 symbolic, bra=None, start=None, stop None | int inside the ring; options none | "
+        "{max_bond, cutoff} symbolic; compress: form None | 'left' | 'right' | 'flat' | int centre 0 <= c < L (both sides of "
+        "L // 2); the canonical form promised for a periodic chain is NOT claimed (only which bonds are compressed, how often, "
+        "and with which options)",
         "dispatcher domain: method in keys of the real table + every name its docstring documents (+ 9 names outside the "
         "table incl. near misses and None for the generic route) x canonize x sweep_reverse x inplace in {True, False} x "
         "equalize_norms in {False, True, 1.0} x permute_arrays in {True, False, 'lrp'} x extra **kwargs present / absent; every "
@@ -29,4 +41,6 @@ entry_extend(
                 "alias reaches the method function the naming rule promises with every option unchanged; names outside the "
                 "table go to the arbitrary-geometry compressor), and max_bond / cutoff / cutoff_mode are shown, on the real "
                 "ast of every function of tn1d/compress.py that declares them, to reach every truncating leaf unchanged "
-                "(two-stage methods: the oversampling cap only in the first stage, the caller's cap in the final direct sweep).")
+                "(two-stage methods: the oversampling cap only in the first stage, the caller's cap in the final direct sweep). On PERIODIC chains of symbolic length, left_compress / right_compress "
+                "/ compress hand every bond of the ring -- the closing bond included -- to exactly one compression call (form "
+                "'flat': the closing bond to two) with the caller's max_bond / cutoff unchanged, for every form and centre.")
